@@ -137,7 +137,75 @@ def gen_c03(ctx: Ctx, n: int):
             cfg["sampler"] = "custom_plain"
         if cfg["W"] > 0 and ctx.rng.random() < 0.25:
             cfg["in_order"] = False
+        if cfg["W"] > 0 and cfg["kind"] in ("map", "map_stateful") and cfg.get("sampler") not in ("shuffle", "shuffle_gen") and cfg.get("in_order") is not False and ctx.rng.random() < 0.4:
+            cfg["kind"] = "map_rng"  # items drawn from the worker's torch / random / numpy global RNGs (seeded like torch's workers)
         jobs.append({"cfg": cfg, "seed": ctx.rng.randrange(1 << 30), "policy": ctx.rng.choice(POLICIES)})
+    return jobs
+
+
+def check_timeout(ctx: Ctx, job):
+    """`timeout=` + a fetch that is slower than the timeout once: the consumer catches "DataLoader timed out" and calls
+    next() again (as with torch's DataLoader).  Apart from the timeouts, the stream is the one of the untimed run: every
+    batch once, in order, then StopIteration (C03; C05: a slow worker changes nothing but the waiting)."""
+    cfg, seed = job["cfg"], job["seed"]
+    base = {k: v for k, v in cfg.items() if k not in ("timeout", "slow_items")}
+    ref, _, _ = run_stream(base, "random", seed + 1, 2)
+    with vsched.Session(seed) as s:
+        torch.manual_seed(1234)
+        loader = sdl.build(cfg)
+        got: List[Any] = []
+        n_tmo = 0
+        for _ in range(2):
+            it = iter(loader)
+            while True:
+                o = sdl.take(it, s)
+                if o == ("timeout",):
+                    n_tmo += 1
+                    if n_tmo > 40:
+                        got.append(("hang", "more than 40 timeouts"))
+                        break
+                    continue
+                got.append(o)
+                if o[0] != "item":
+                    break
+            if got and got[-1][0] != "stop":
+                break
+        del loader, it
+        gc.collect()
+    ctx.case("ko_timeout", cfg, n_tmo > 0)
+    ctx.count("timeouts_seen:%d" % min(n_tmo, 3))
+    if cfg.get("in_order") is False:
+        key = lambda st: sorted(repr(o) for o in st)  # noqa: E731
+    else:
+        key = lambda st: st  # noqa: E731
+    if key(got) != key(ref):
+        d = C01._first_diff(got, ref)
+        ctx.fail("C03:timeout_retry_changes_stream", job,
+                 f"timeout={cfg['timeout']}, fetch of {list(cfg['slow_items'])} slow once; after {n_tmo} caught timeouts the stream differs at observation {d}: {got[d:d+3]} vs untimed run {ref[d:d+3]}")
+
+
+def gen_timeout(ctx: Ctx, n: int):
+    jobs = []
+    for i in range(n):
+        cfg = sdl.gen_cfg(ctx.rng, kinds=["map", "map_stateful", "iter_plain", "iter_ds_state", "iter_it_state"], allow_shuffle=False)
+        cfg.pop("sampler_len", None)
+        if cfg["W"] == 0:
+            cfg["W"] = ctx.rng.choice([1, 2, 3])
+            cfg["pf"] = ctx.rng.choice([1, 2])
+            cfg["persistent"] = False
+        if sdl.is_iter(cfg):
+            cfg["sizes"] = [ctx.rng.randrange(2, 7) for _ in range(cfg["W"])]
+            items = [1000 * w + j for w, sz in enumerate(cfg["sizes"]) for j in range(sz)]
+        else:
+            cfg["n"] = ctx.rng.randrange(4, 13)
+            items = list(range(cfg["n"]))
+        if cfg.get("sampler") == "custom_stateful":
+            cfg["sampler"] = "custom_plain"
+        if ctx.rng.random() < 0.2:
+            cfg["in_order"] = False
+        cfg["timeout"] = 0.3
+        cfg["slow_items"] = {str(x): ctx.rng.choice([0.5, 0.8, 1.3]) for x in ctx.rng.sample(items, ctx.rng.choice([1, 1, 2]))}
+        jobs.append({"cfg": cfg, "seed": ctx.rng.randrange(1 << 30)})
     return jobs
 
 
